@@ -43,12 +43,6 @@ pub static mut CUT_AFTER_PREALLOC: bool = false;
 pub fn cut_after_prealloc() -> bool {
     unsafe { ON && CUT_AFTER_PREALLOC }
 }
-/// parse_prealloc_bound_justice: leave `Parser::parse` after the justice-size loop
-pub static mut CUT_AFTER_JUSTICE_SIZES: bool = false;
-
-pub fn cut_after_justice_sizes() -> bool {
-    unsafe { ON && CUT_AFTER_JUSTICE_SIZES }
-}
 
 fn script() -> bool {
     unsafe { SCRIPT }
